@@ -8,8 +8,10 @@ import (
 	"io"
 	"reflect"
 	"sort"
+	"strconv"
 	"strings"
 	"testing"
+	"unicode/utf16"
 
 	mxj "github.com/clbanning/mxj/v2"
 	"github.com/clbanning/mxj/v2/j2x"
@@ -446,6 +448,39 @@ func checkC20(c CaseC20, info *Info) *Failure {
 	if p, e := j2x.JsonPathForKeyShortest(jb, c.Key); e != nil || (p == "") != (len(vp) == 0) || len(strings.Split(p, ".")) != len(strings.Split(vm.PathForKeyShortest(c.Key), ".")) {
 		return mism("j2x.JsonPathForKeyShortest", p, vm.PathForKeyShortest(c.Key))
 	}
+	// every key that occurs in the value (and one that does not), for three spellings of the same document: as encoded,
+	// with "/" and all non-ASCII characters written as escapes, and wrapped in a top-level list (key "object")
+	{
+		keys := map[string]bool{"zz-absent": true, "object": true}
+		collectKeys(c.Value, keys)
+		escDoc := escapeJSONText(jb)
+		listDoc := append(append([]byte("[1,"), jb...), ']')
+		lm, lerr := mxj.NewMapJson(listDoc)
+		for _, k := range setKeys(keys) {
+			want := strSet(vm.PathsForKey(k))
+			for name, d := range map[string][]byte{"as encoded": jb, "escaped spelling": escDoc} {
+				if p, e := j2x.JsonPathsForKey(d, k); e != nil || !reflect.DeepEqual(strSet(p), want) {
+					return mism("j2x.JsonPathsForKey(key "+strconv.Quote(k)+", "+name+" "+string(d)+")", strSet(p), want)
+				}
+				if p, e := j2x.JsonPathForKeyShortest(d, k); e != nil || (p == "") != (len(want) == 0) {
+					return mism("j2x.JsonPathForKeyShortest(key "+strconv.Quote(k)+", "+name+")", p, vm.PathForKeyShortest(k))
+				}
+				wv, _ := vm.ValuesForKey(k)
+				if v, e := j2x.JsonValuesForKey(d, k); e != nil || !compareVals(v, wv, true) {
+					return mism("j2x.JsonValuesForKey(key "+strconv.Quote(k)+", "+name+")", sortedCanon(v), sortedCanon(wv))
+				}
+			}
+			if lerr == nil {
+				lw := strSet(lm.PathsForKey(k))
+				if p, e := j2x.JsonPathsForKey(listDoc, k); e != nil || !reflect.DeepEqual(strSet(p), lw) {
+					return mism("j2x.JsonPathsForKey(key "+strconv.Quote(k)+", document wrapped in a top-level list)", strSet(p), lw)
+				}
+				if p, e := j2x.JsonPathForKeyShortest(listDoc, k); e != nil || (p == "") != (len(lw) == 0) {
+					return mism("j2x.JsonPathForKeyShortest(key "+strconv.Quote(k)+", document wrapped in a top-level list)", p, lm.PathForKeyShortest(k))
+				}
+			}
+		}
+	}
 	vk, vkerr := vm.ValuesForKey(c.Key, sp...)
 	if v, e := j2x.JsonValuesForKey(jb, c.Key, sp...); !eqErr(e, vkerr) || !compareVals(v, vk, true) {
 		return mism("j2x.JsonValuesForKey", sortedCanon(v), sortedCanon(vk))
@@ -605,4 +640,55 @@ func checkC20bulk(c CaseC20, doc []byte, mism func(string, interface{}, interfac
 	info.ClassIf(c.Bulk >= 1 && c.Bulk <= 3, "stream wrapper stopped early, reader used again")
 	info.Class("stream wrappers compared")
 	return nil
+}
+
+func collectKeys(v interface{}, out map[string]bool) {
+	switch x := v.(type) {
+	case map[string]interface{}:
+		for k, vv := range x {
+			out[k] = true
+			collectKeys(vv, out)
+		}
+	case []interface{}:
+		for _, vv := range x {
+			collectKeys(vv, out)
+		}
+	}
+}
+
+// escapeJSONText rewrites a JSON text so that, inside strings, "/" is written \/ and every non-ASCII character as
+// \uXXXX (surrogate pairs above the BMP): another spelling of the same value.
+func escapeJSONText(b []byte) []byte {
+	var out []byte
+	inStr, esc := false, false
+	for _, r := range string(b) {
+		switch {
+		case !inStr:
+			if r == '"' {
+				inStr = true
+			}
+			out = append(out, string(r)...)
+		case esc:
+			esc = false
+			out = append(out, string(r)...)
+		case r == '\\':
+			esc = true
+			out = append(out, '\\')
+		case r == '"':
+			inStr = false
+			out = append(out, '"')
+		case r == '/':
+			out = append(out, '\\', '/')
+		case r > 0x7e && r != 0xFFFD:
+			if r > 0xFFFF {
+				r1, r2 := utf16.EncodeRune(r)
+				out = append(out, fmt.Sprintf("\\u%04x\\u%04x", r1, r2)...)
+			} else {
+				out = append(out, fmt.Sprintf("\\u%04x", r)...)
+			}
+		default:
+			out = append(out, string(r)...)
+		}
+	}
+	return out
 }
